@@ -1781,19 +1781,24 @@ def ignore_comments(string):
 
     comments = [
         (mo.start(), mo.group(0))
-        for mo in re.finditer(r'(/\*|\*/|--|\n)', string)
+        for mo in re.finditer(r'(/\*|\*/|--|\n|")', string)
     ]
 
     comments.sort()
 
     in_single_line_comment = False
+    in_character_string = False
     multi_line_comment_depth = 0
     start_offset = 0
     non_comment_offset = 0
     chunks = []
 
     for offset, kind in comments:
-        if in_single_line_comment:
+        if in_character_string:
+            # Comment tokens inside "..." are part of the string.
+            if kind == '"':
+                in_character_string = False
+        elif in_single_line_comment:
             if kind in ['--', '\n']:
                 in_single_line_comment = False
 
@@ -1810,8 +1815,13 @@ def ignore_comments(string):
 
                 if multi_line_comment_depth == 0:
                     offset += 2
-                    chunks.append(' ' * (offset - start_offset))
+                    # Keep the newlines to not change any line numbers.
+                    chunks.append(re.sub(r'[^\n]',
+                                         ' ',
+                                         string[start_offset:offset]))
                     non_comment_offset = offset
+        elif kind == '"':
+            in_character_string = True
         elif kind == '--':
             in_single_line_comment = True
             start_offset = offset
